@@ -15,7 +15,7 @@ TECHNIQUE = ('property-based testing (Hypothesis): generated schedules of time/c
              'WNTRSimulator status/setting timeline compared with a reference time-semantics model written from the '
              'statement, which is itself cross-checked against EPANET 2.2 stepped through the toolkit')
 RULE = ('Generated case = small looped network fed by a reservoir (no tanks, so nothing but the schedule moves a '
-        'target) + 1-6 simple controls (AT TIME / AT CLOCKTIME, explicit priorities) and 0-3 rules on SYSTEM TIME / '
+        'target) + 1-6 simple controls (AT TIME once or repeated daily, AT CLOCKTIME daily or once - also at the start clock time itself -, explicit priorities) and 0-3 rules on SYSTEM TIME / '
         'SYSTEM CLOCKTIME (>, >=, <, <=; pure AND or pure OR of up to 3 premises; ELSE; priorities) acting on pipe '
         'statuses and a TCV setting; duration 2 h - 3 d (thorough 5 d), hydraulic step 900-7200 s, rule step 60-3600 s, '
         'start_clocktime, report step ALL or k*hyd; instants on and off both grids. Oracle: piecewise-constant '
@@ -116,10 +116,14 @@ def strategy(draw, tier='quick'):
 
     controls = []
     for _ in range(draw(st.integers(1, 6))):
-        kind = draw(st.sampled_from(['time', 'time', 'clock', 'clock', 'clock', 'time_daily'] if not ep else ['time', 'clock']))
-        ck = kind == 'clock'
+        kind = draw(st.sampled_from(['time', 'time', 'clock', 'clock', 'clock', 'time_daily', 'clock_once']
+                                    if not ep else ['time', 'clock']))
+        ck = kind in ('clock', 'clock_once')
         i, v = action()
-        controls.append({'kind': kind, 'at': draw(_instant(opts, ck)), 'target': i, 'value': v,
+        at = draw(_instant(opts, ck))
+        if kind == 'clock_once' and draw(st.integers(0, 3)) == 0:
+            at = opts['start_clocktime']        # the first instant is the start of the run
+        controls.append({'kind': kind, 'at': at, 'target': i, 'value': v,
                          'priority': draw(st.sampled_from([3, 3, 3, 0, 1, 2, 4, 5, 6]))})
     # a deliberate same-instant conflict between two simple controls (distinct priorities)
     if not ep and draw(st.integers(0, 3)) == 0 and controls:
@@ -146,12 +150,12 @@ def strategy(draw, tier='quick'):
     ruled = set(i for r in rules for i, _v in (r['then'] + r['else']))
     for c in controls:
         if c['target'] in ruled and draw(st.integers(0, 9)) > 0:
-            first = c['at'] if c['kind'] != 'clock' else (c['at'] - opts['start_clocktime']) % 86400
+            first = c['at'] if c['kind'] not in ('clock', 'clock_once') else (c['at'] - opts['start_clocktime']) % 86400
             if first % opts['rule'] == 0:
                 off = draw(st.sampled_from([7, 30, 61, 1]))
                 if off % opts['rule'] == 0:
                     off = 7
-                c['at'] = (c['at'] + off) % 86400 if c['kind'] == 'clock' else c['at'] + off
+                c['at'] = (c['at'] + off) % 86400 if c['kind'] in ('clock', 'clock_once') else c['at'] + off
     # distinct priorities among rules (equal priorities are unspecified when they collide)
     used = set()
     for r in rules:
@@ -216,7 +220,7 @@ def build_wn(case):
         return cur
 
     for k, c in enumerate(case['controls']):
-        ctl = Control._time_control(wn, int(c['at']), 'CLOCK_TIME' if c['kind'] == 'clock' else 'SIM_TIME',
+        ctl = Control._time_control(wn, int(c['at']), 'CLOCK_TIME' if c['kind'] in ('clock', 'clock_once') else 'SIM_TIME',
                                     c['kind'] in ('clock', 'time_daily'), act(c['target'], c['value']))
         ctl.update_priority(ControlPriority(c['priority']))
         wn.add_control('c%d' % k, ctl)
@@ -255,7 +259,7 @@ def epanet_comparable(case):
         return False
     seen = set()
     for c in case['controls']:
-        if c['at'] % 900 != 0 or c['kind'] == 'time_daily':     # EPANET has no repeating sim-time control
+        if c['at'] % 900 != 0 or c['kind'] in ('time_daily', 'clock_once'):     # EPANET has no repeating sim-time / one-time clock control
             return False
         if case['rules'] and c['at'] % o['rule'] != 0:
             return False
